@@ -12,6 +12,7 @@ let cop_of_line l =
   | ["ADD"; r; j] -> CAdd (record_of_tok r, z_of_int (int_of_string j))
   | ["ADV"; t] -> CAdv (z_of_int (int_of_string t))
   | ["LATE"; t] -> CLate (z_of_int (int_of_string t))
+  | ["ADVB"; t] -> CAdvB (z_of_int (int_of_string t))
   | ["LOOKUP"; n; ty] -> CLookup (bstr_of_tok n, n_of_int (int_of_string ty))
   | _ -> failwith ("cache op: " ^ l)
 
